@@ -158,6 +158,11 @@ class Engine:
     def pow2(self, e):
         return self._pow2(e)
 
+    def bitor(self, a, b):
+        if not hasattr(self, "_bitor"):
+            self._bitor = z3.Function("bitor", z3.IntSort(), z3.IntSort(), z3.IntSort())
+        return self._bitor(a, b)
+
     # ---- construction ---------------------------------------------------------------------------
     def construct(self, I, cls, args, kwargs, node):
         c = self.contract
@@ -434,6 +439,12 @@ class Engine:
 
     def builtin(self, I, fn, args, kwargs, node):
         ctx = I.ctx
+        try:
+            h = self.contract.callees.get(fn)
+        except TypeError:
+            h = None
+        if h is not None and fn is not sorted:
+            return h(I, list(args), kwargs)
         if fn is len:
             return self.as_len(args[0])
         if fn is isinstance:
@@ -898,6 +909,8 @@ class Engine:
             for a, arr in heap.items():
                 if a in heap_before and heap_before[a] is not arr and ("heap:" + a) not in spec.modifies:
                     raise Unsupported(f"{tag}: body writes heap field {a} not listed in modifies")
+            if spec.ghost_step:
+                spec.ghost_step(ctx, env, it, broke)   # ghost update (witness for existential clauses); may not touch program state
             if broke:
                 return
             if kind == "for":
